@@ -120,6 +120,25 @@ STRENGTHENED = {
     "C17_r5m1": "first missed by C17 (RubiksCube ran with the shipped sparse reward only): dense fraction-in-place and move-penalty reward functions; a quarter turn away from the goal and back must give MID then LAST",
     "C19_r5m1": "first missed by C19 (every tree of a batch had its own leaf objects): the same tree repeated and trees sharing some leaf objects (what state.replace gives), generated and real states",
     "C19_r5m2": "first missed by C19 (compared dicts were built in the same key order): identical / one-element-different nests whose dicts are built in the reverse insertion order",
+    "C01_r6m1": "first missed by C01 (every BinPack container had its length as largest dimension, or normalised dimensions): raw-dimension configuration with container (1000, 1200, 2000)",
+    "C03_r6m1": "first missed by C03 (steps after LAST replayed the episode's policy, a solver never plays an illegal move): every other post-terminal step is a uniformly random in-spec action",
+    "C04_r6m1": "not caught by C04 (the mask agrees with the EMS rows that are shown); caught by C12, where the rule 'the observed EMSs are the largest live ones' is checked (obs_largest_ems_selected, obs_ems_sorted_by_volume)",
+    "C06_r6m1": "first missed by C06 quick (largest GraphColoring instance on the quick tier had 20 nodes; colour indices >= 32 need more than 32 nodes): 40-node configuration on both tiers",
+    "C10_r6m1": "first missed by C10 (the harness's own CSV round trip used unique item names): a repeated name with different sizes",
+    "C10_r6m2": "first missed by C10 quick (no Minesweeper board with more than 256 cells on the quick tier): 16x17/40 board (generator, physical-consistency and spec checks only)",
+    "C11_r6m1": "first run inconclusive (machine overload), then missed by C11 (no explicit limit above 255: an 8-bit step counter wraps): limits of 300 on Sokoban, Maze, Cleaner, Connector, RubiksCube, Tetris",
+    "C12_r6m1": "first run inconclusive (machine overload: shard time-outs); caught by the unchanged C12 check on the re-run",
+    "C13_r6m1": "first missed by C13 (the limit-at-first-reward shards used LBF with two foods: eating the first does not complete the level): one-food LBF configuration, completion and time limit on the same step",
+    "C13_r6m2": "first missed by C13 (Knapsack shards used budgets for which a trivial instance - all items fit - is practically never drawn): 8 items / budget 3 through the wrapper for hundreds of steps",
+    "C15_r6m1": "first missed by C15 (aggregators were default (sum, max), first-agent and mean): a zero-propagating discount aggregator (min) on Connector episodes long enough for agents to connect mid-episode, counter gym_steps_zero_discount_not_last",
+    "C15_r6m2": "first missed by C15/C01 (every LBF configuration had sight range >= grid size or >= 3 agents): 10x10 grid, 2 agents, fov 3 (view coordinates above every level)",
+    "C16_r6m2": "first missed by C16 (copies - pickle, deepcopy, replace - were compared and validated but never asked to generate): generate_value of every copy must be a member of the original",
+    "C17_r6m1": "first missed by C17 (the random cube steps stopped at the first LAST): half of the runs keep stepping after LAST and compare with the physical turn",
+    "C17_r6m2": "first missed by C17 (generator outputs checked up to 5x5): resets of 12x12 and 16x16 puzzles (tile numbers beyond 8 bits)",
+    "C18_r6m1": "first missed by C18 (generated names never contained one another): ids that are substrings of registered ids (shorter version prefix, name suffix)",
+    "C18_r6m2": "first missed by C18 (make(id) was compared with make(id) in the same process history): fingerprint of make(id) after building sibling configurations (incl. RobotWarehouse floors of equal size but other column height) against the fingerprint from a fresh process",
+    "C19_r6m1": "first missed by C19 (finite leaves only): float leaves with an infinite entry",
+    "C19_r6m2": "first missed by C19 (perturbations were +1 / other dtype): every element moved to the next representable float",
     "C19_m2": "caught by the symmetric-comparison clause; the variant 'other dtype and a value the cast would destroy' was added to make the hit direct",
 }
 rows = []
